@@ -95,3 +95,9 @@ func Encode(xml string, level int) string {
 	}
 	return base64.StdEncoding.EncodeToString(Deflate([]byte(xml), level))
 }
+
+// NewDeflateWriter returns a raw DEFLATE writer (streaming use).
+func NewDeflateWriter(w *bytes.Buffer, level int) *flate.Writer {
+	fw, _ := flate.NewWriter(w, level)
+	return fw
+}
